@@ -50,6 +50,25 @@ def stopping_cases(draw, max_inner=9):
 
 
 @st.composite
+def sibling_cases(draw):
+    """Two games solved back to back that share their transition lists: the second differs only in its rewards,
+    or only in the owners of some player states.  Each is compared with its own exact conditioned values."""
+    g = draw(games.stopping_games(min_inner=2, max_inner=8, dyadic=True))
+    h = games.copy_game(g)
+    how = draw(st.sampled_from(("rewards", "owners")))
+    n = len(g["players"])
+    if how == "rewards":
+        for s in range(n):
+            if not exact.is_absorbing(g, s) and draw(st.booleans()):
+                h["rewards"][s] = draw(st.sampled_from((0, 1, 2, 3, 5, 0.5, 7.25)))
+    else:
+        for s in range(n):
+            if g["players"][s] in (P1, P2) and draw(st.booleans()):
+                h["players"][s] = P2 if g["players"][s] == P1 else P1
+    return dict(kind="siblings", first=g, second=h, how=how, prune=games.coin(draw))
+
+
+@st.composite
 def board_cases(draw, max_len=3, max_wid=3):
     b = draw(boards.boards(max_len=max_len, max_wid=max_wid))
     return dict(kind="board", board=b, variant=draw(st.sampled_from("abc")), prune=games.coin(draw))
@@ -146,13 +165,15 @@ def phases(tier):
               note="states worth 1e-9..1e-6: positive, hence not dead, must survive conditioning"),
         Phase("repository-examples", enum=example_cases, note="inputs/*.py example games, consistency + exact if stopping"),
         Phase("stopping-games", strategy=lambda: stopping_cases(9 if tier == "quick" else 12), examples=(1500, 60000)),
+        Phase("sibling-pairs-back-to-back", strategy=sibling_cases, examples=(250, 10000),
+              note="same transition lists, different rewards / owners, solved consecutively"),
         Phase("boards-consistency", strategy=lambda: board_cases(3, 3) if tier == "quick" else board_cases(4, 4),
               examples=(60, 1500)),
     ]
 
 
 def sample_view(case):
-    if case["kind"] == "medium":
+    if case["kind"] in ("medium", "siblings"):
         return case
     if case["kind"] == "example":
         return dict(kind="example", file=case["file"], name=case["name"], prune=case["prune"],
@@ -184,6 +205,13 @@ def check_case(case):
     v.cls("prune" if prune else "no_prune")
     if case["kind"] == "medium":
         return check_medium(case, v)
+    if case["kind"] == "siblings":
+        v.cls("siblings_" + case["how"])
+        for g in (case["first"], case["second"], case["first"]):
+            w = check_case(dict(kind="game", game=g, prune=case["prune"]))
+            v.fails.extend(w.fails)
+            v.nontrivial = v.nontrivial or w.nontrivial
+        return v
     if case["kind"] == "board":
         gms = boards.games_from_board(case["board"])
         game = gms["game_" + case["variant"]]
